@@ -55,7 +55,7 @@ ASSUMPTIONS = [
     "temp file with identical content is read instead; the row oracle is unaffected",
 ]
 EXPECTED_PROBES = ("sim_disk_used", "n_eq_0", "n_eq_10", "n_eq_11", "index_eq_n", "index_gt_n", "index_last", "torn_tail",
-                   "short_raw_read", "listing_elided", "listing_full", "repeated_packet")
+                   "short_raw_read", "listing_elided", "listing_full", "repeated_packet", "garbage_tail", "huge_packet")
 
 XTCE_PATH = os.path.join(os.path.dirname(os.path.dirname(os.path.abspath(__file__))), "models", "header_only.xml")
 
@@ -109,6 +109,7 @@ def run(ch, render=False):
         short_mode = "full"
         hdr_seed = 0
         repeat = "unique"
+        huge = False
     else:
         n = ch.weighted([(10, None), (1, 20), (1, 60)], "n_kind")
         n = ch.draw(N_SWEEP + 1, "n") if n is None else 11 + ch.draw(n - 10, "n_big")
@@ -120,6 +121,9 @@ def run(ch, render=False):
         short_mode = ch.pick(("full", "drawn", "one"), "short")
         hdr_seed = ch.draw(1 << 16, "hdr_seed")
         repeat = ch.weighted([(3, "unique"), (1, "some_repeats"), (1, "all_identical")], "repeat")
+        huge = ch.chance(1, 25, "huge")          # some packets with a data field of 32768 bytes or more (length field >= 0x7FFF)
+        if huge:
+            bufsize, short_mode = 8192, "full"
 
     # ---- the recorder writes n packets with unique counters -----------------------------------
     c0 = (hdr_seed * 37) % 16384 if hdr_seed else 500
@@ -131,6 +135,9 @@ def run(ch, render=False):
             dlen = 1 + (hb[1] >> 1) % 12
         else:
             version, type_, shf, apid, flags, dlen = 0, 0, 0, 100 + j, 3, 3
+        if huge and (j == 0 or ch.chance(1, 3, "huge_j")):
+            dlen = ch.pick((32768, 32769, 32767, 65536, 65535, 40000), "huge_len")
+            w.probe("huge_packet")
         pkts.append(factory.build_packet(version, type_, shf, apid, flags, (c0 + j) % 16384, payload(hdr_seed + 99 + j, dlen)))
         # byte-identical packets are legal (idle / fill / retransmitted packets): rows are then attributable by
         # position only, and the listing must still show every one of them
@@ -147,6 +154,14 @@ def run(ch, render=False):
         parts.append(p)
     full = b"".join(parts)
     content = full
+    if not sweep and not torn and ch.chance(1, 8, "garbage_tail"):
+        # bytes that are not a packet after the last packet (a recorder that pads, or junk appended by a transfer):
+        # whatever the reference framing makes of the bytes present is what must be listed; nothing may crash or hang
+        g = payload(1 + ch.draw(1 << 16, "garbage_seed"), 1 + ch.draw(14, "garbage_len"))
+        if ch.chance(1, 2, "garbage_ff"):
+            g = b"\xff" * len(g)
+        content = full + g
+        w.fault("garbage_tail")
     if torn and full:
         # the recorder crashes while writing one of the last two packets (or anywhere)
         tail = len(parts[-1]) + (len(parts[-2]) if len(parts) > 1 and ch.chance(1, 3, "torn2") else 0)
